@@ -100,7 +100,38 @@ func runC05Multi(r *rand.Rand, tier string, out string, meta *Meta, g *qGen) {
 				wh, cwh = " WHERE "+w.sql, "(Some "+w.coq+")"
 			}
 			var sql, coq string
-			if r.Intn(3) != 0 {
+			if r.Intn(3) == 0 {
+				// DELETE over LEFT / RIGHT / FULL (and plain) joins: a joined row can lack the record of one table
+				// (Model/Dml.v delete_join_k: every row carries its position in one more column, so c's columns
+				// are one further to the right)
+				kcols := []qCol{{"p.p1", 0}, {"p.p2", 1}, {"p.p3", 2}, {"c.c1", 4}, {"c.c2", 5}}
+				jk := [][2]string{{"LEFT JOIN", "JLeft"}, {"LEFT OUTER JOIN", "JLeft"}, {"RIGHT JOIN", "JRight"}, {"FULL JOIN", "JFull"}, {"FULL OUTER JOIN", "JFull"}, {"INNER JOIN", "JInner"}}[r.Intn(6)]
+				kon := qE{"p.p1 = c.c1", "(ECmp OpEq (ECol 0) (ECol 4))"}
+				if r.Intn(5) == 0 {
+					kon = g.cond(kcols, 1)
+				}
+				kwh, kcwh := "", "None"
+				if r.Intn(3) == 0 {
+					w := g.cond(kcols, 1)
+					kwh, kcwh = " WHERE "+w.sql, "(Some "+w.coq+")"
+				}
+				tp, tc := true, true
+				switch r.Intn(4) {
+				case 0:
+					tc = false
+				case 1:
+					tp = false
+				}
+				var targets []string
+				if tp {
+					targets = append(targets, "p")
+				}
+				if tc {
+					targets = append(targets, "c")
+				}
+				sql = fmt.Sprintf("DELETE %s FROM p %s c ON %s%s", strings.Join(targets, ", "), jk[0], kon.sql, kwh)
+				coq = fmt.Sprintf("MDeleteK %s %s %s 3 2 (Some %s) %s", jk[1], coqBool(tp), coqBool(tc), kon.coq, kcwh)
+			} else if r.Intn(3) != 0 {
 				tp, tc := true, true
 				switch r.Intn(3) {
 				case 0:
